@@ -234,6 +234,14 @@ Definition apply_sort (cfg : config) (l : list node) (a : pargs) : option (list 
   | Some f => if mem_str f (cfg_sf cfg) then Some (stable_sort (node_less f (a_desc a)) l) else None
   end.
 
+(** the arguments name a registered sort field (or none): [apply_sort] does not fail *)
+Definition sort_ok (cfg : config) (a : pargs) : Prop :=
+  match a_sortby a with None => True | Some f => mem_str f (cfg_sf cfg) = true end.
+
+(** the list that is paginated: filtered, then sorted *)
+Definition base_list (cfg : config) (l : list node) (a : pargs) : list node :=
+  match apply_sort cfg (apply_text_filter cfg l a) a with Some s => s | None => [] end.
+
 (** * Edges, cursors *)
 
 Section Enc.
@@ -387,6 +395,12 @@ Section Enc.
 
   Definition with_last_before (a : pargs) (k : Z) (before : option string) : pargs :=
     mk_args None (Some k) None before (a_ftext a) (a_ffields a) (a_sortby a) (a_desc a).
+
+  Definition set_after (a : pargs) (o : option string) : pargs :=
+    mk_args (a_first a) (a_last a) o (a_before a) (a_ftext a) (a_ffields a) (a_sortby a) (a_desc a).
+
+  Definition set_before (a : pargs) (o : option string) : pargs :=
+    mk_args (a_first a) (a_last a) (a_after a) o (a_ftext a) (a_ffields a) (a_sortby a) (a_desc a).
 
   (** result: the pages in the order visited, and whether the walk ended by itself
       (hasNextPage = false or an error) rather than by running out of fuel *)
